@@ -103,6 +103,10 @@ func runC04(c *engine.Ctx, tier string) {
 	connLifecycle(c, "C04.10")
 	// (11) what the re-push sends is Applied.Values: they are stored before the applied cursor that claims them
 	storeWriteOrder(c, "", "C04.11")
+	// (12) … and they are what was applied: a status writer that read the configuration before an apply (the
+	// mastership and configuration controllers write the status concurrently with the proposal controller)
+	// must not put the older applied values back when its own write is refused
+	refusedLeavesNoTrace(c, "C04.12", pkgStoreCfgV2, "UpdateStatus")
 }
 
 // pushGate: every path that writes SYNCHRONIZED without Applied.Index == 0 has passed the push
